@@ -18,6 +18,8 @@ DEMOS=$(ls $SRC | grep -E '\.rs$')
 FEAT=""
 grep -qiE '"(demo|needs)".*--features preemptive' $SRC/meta.json && FEAT="--features preemptive"
 grep -qiE '"(demo|needs)".*--features io_uring' $SRC/meta.json && FEAT="--features io_uring"
+# the grep above is a heuristic (a meta that says "compiled out under --features preemptive" also matches): FEAT_OVERRIDE wins
+[ -n "${FEAT_OVERRIDE+x}" ] && FEAT="$FEAT_OVERRIDE"
 for d in $DEMOS; do cp $SRC/$d $DEMO_DIR/$d; done
 run_demos() {
   local rc=0
